@@ -77,7 +77,9 @@ type TermStore struct {
 	USorts []string
 	// axioms keyed by the symbol that brings them in
 	Axioms map[string][]*Term
-	fresh  map[string]int
+	// constants that stand for objects allocated during the run: pairwise distinct
+	FreshRefs map[*Term]bool
+	fresh     map[string]int
 }
 
 type FuncDecl struct {
@@ -88,7 +90,7 @@ type FuncDecl struct {
 }
 
 func NewTermStore() *TermStore {
-	return &TermStore{tab: map[string]*Term{}, Consts: map[string]*Sort{}, Funcs: map[string]*FuncDecl{}, Axioms: map[string][]*Term{}, fresh: map[string]int{}}
+	return &TermStore{tab: map[string]*Term{}, Consts: map[string]*Sort{}, Funcs: map[string]*FuncDecl{}, Axioms: map[string][]*Term{}, FreshRefs: map[*Term]bool{}, fresh: map[string]int{}}
 }
 
 func (ts *TermStore) intern(t *Term) *Term {
@@ -442,7 +444,7 @@ func (ts *TermStore) Sub(a, b *Term) *Term { return ts.arith("-", a, b) }
 func (ts *TermStore) Mul(a, b *Term) *Term { return ts.arith("*", a, b) }
 func (ts *TermStore) Div(a, b *Term) *Term { return ts.arith("div", a, b) }
 func (ts *TermStore) Mod(a, b *Term) *Term { return ts.arith("mod", a, b) }
-func (ts *TermStore) Neg(a *Term) *Term   { return ts.Sub(ts.IntLit(0), a) }
+func (ts *TermStore) Neg(a *Term) *Term    { return ts.Sub(ts.IntLit(0), a) }
 
 func (ts *TermStore) cmp(op string, a, b *Term) *Term {
 	if a.Op == "int" && b.Op == "int" {
@@ -482,6 +484,10 @@ func (ts *TermStore) Select(a, i *Term) *Term {
 			continue
 		}
 		if ts.distinctOffsets(i, j) {
+			a = a.Args[0]
+			continue
+		}
+		if i != j && ts.FreshRefs[i] && ts.FreshRefs[j] { // two different allocations
 			a = a.Args[0]
 			continue
 		}
@@ -751,7 +757,6 @@ func (ts *TermStore) rebuild(t *Term, args []*Term, pats [][]*Term) *Term {
 	}
 	return ts.intern(&Term{Op: t.Op, Name: t.Name, Args: args, Sort: t.Sort, Int: t.Int})
 }
-
 
 // ---------------------------------------------------------------------------
 // Printing
@@ -1064,10 +1069,10 @@ func (ts *TermStore) noteSort(s *Sort, used map[string]bool, pending *[]*Term) {
 
 type QueryOpts struct {
 	NoQuantAxioms bool
-	CVC5      bool
-	Z3Opts    string
-	Comments  []string
-	GetValues []*Term
+	CVC5          bool
+	Z3Opts        string
+	Comments      []string
+	GetValues     []*Term
 }
 
 // datatype declaration order matters (a datatype must be declared after the ones it uses);
